@@ -147,15 +147,17 @@ func (api *API) SubmitWithOptions(ctx context.Context, inputBlobs []da.Blob, gas
 	var (
 		blobsToSubmit [][]byte = make([][]byte, 0, len(inputBlobs))
 		currentSize   uint64
-		oversizeBlobs int
 	)
 
 	for i, blob := range inputBlobs {
 		blobLen := uint64(len(blob))
 		if blobLen > maxBlobSize {
 			api.Logger.Warn("Individual blob exceeds MaxBlobSize, cannot submit", "index", i, "blobSize", blobLen, "maxBlobSize", maxBlobSize)
-			oversizeBlobs++
-			continue
+			if len(blobsToSubmit) == 0 {
+				return nil, da.ErrBlobSizeOverLimit
+			}
+			// the blobs in front of it are the longest prefix that fits; the caller sees how many were taken
+			break
 		}
 		if currentSize+blobLen > maxBlobSize {
 			api.Logger.Info("Blob size limit reached for batch", "maxBlobSize", maxBlobSize, "index", i, "currentSize", currentSize, "nextBlobSize", blobLen)
@@ -163,11 +165,6 @@ func (api *API) SubmitWithOptions(ctx context.Context, inputBlobs []da.Blob, gas
 		}
 		currentSize += blobLen
 		blobsToSubmit = append(blobsToSubmit, blob)
-	}
-
-	if oversizeBlobs > 0 {
-		api.Logger.Error("Blobs exceeded size limit", "oversize_count", oversizeBlobs, "total_blobs", len(inputBlobs))
-		return nil, da.ErrBlobSizeOverLimit
 	}
 
 	if len(blobsToSubmit) == 0 {
